@@ -1517,6 +1517,15 @@ class Interp:
                             continue
                         found[c.subst({k: Lin.sym(v) for k, v in hs.items()}).key()] = \
                             c.subst({k: Lin.sym(v) for k, v in hs.items()})
+                    # disequalities met in the body (cursor != end) suggest both orderings
+                    for d_ in T.diseq.values():
+                        if len(d_.t) > 4 or not any(sy in hs for sy in d_.t):
+                            continue
+                        if any((isinstance(sy, str) and sy not in hs and sy not in stsyms) for sy in d_.t):
+                            continue
+                        for dd in (d_, -d_):
+                            c2 = dd.subst({k: Lin.sym(v) for k, v in hs.items()})
+                            found[c2.key()] = c2
                 if found:
                     partners = list(found.values())[:40]
                     templ = None
